@@ -137,12 +137,19 @@ def st_option_tlv():
     return st.one_of(st_flow_tlv(12), st_msg_tlv(16), st_fault_tlv(), st_fsreq_tlv(10))
 
 
-def build_tlv(d):
+def build_tlv(d, plain_ints=False):
     from spacepackets.cfdp import defs as cd
     from spacepackets.cfdp import tlv as T
     from spacepackets.cfdp.lv import CfdpLv
 
     t = d["t"]
+    if plain_ints:  # enumerated parameters as the plain integers a decoder exposes
+        if t == "fault":
+            return T.FaultHandlerOverrideTlv(int(d["cc"]), int(d["handler"]))
+        if t == "fsreq":
+            return T.FileStoreRequestTlv(int(d["action"]), d["n1"], d["n2"])
+        if t == "fsresp":
+            return T.FileStoreResponseTlv(int(d["action"]), T.FilestoreResponseStatusCode((d["action"] << 4) | d["status"]), d["n1"], d["n2"], CfdpLv(bytes.fromhex(d["msg"])))
     if t == "entity":
         return T.EntityIdTlv(bytes.fromhex(d["id"]))
     if t == "flow":
@@ -261,8 +268,17 @@ def file_data_of(p) -> bytes:
     return expand_fill(p["data"])
 
 
-def build_pdu(p, conf_obj=None):
-    """Library PDU object from a plain-data description."""
+class _PlainInts:
+    """Stand-in for the enum modules: hands the documented plain-integer values through unchanged."""
+
+    def __getattr__(self, name):
+        return lambda v: int(v)
+
+
+def build_pdu(p, conf_obj=None, plain_ints=False):
+    """Library PDU object from a plain-data description.  With ``plain_ints`` the enumerated parameters (condition code, delivery
+    code, file status, directive code, checksum type, transaction status, response flag, continuation state) are passed as the plain
+    integers a decoder exposes instead of enum members."""
     from spacepackets.cfdp import defs as cd
     from spacepackets.cfdp import pdu as P
     from spacepackets.cfdp.pdu.file_data import RecordContinuationState, SegmentMetadata
@@ -270,20 +286,26 @@ def build_pdu(p, conf_obj=None):
 
     conf = conf_obj if conf_obj is not None else build_conf(p["conf"])
     k = p["kind"]
+    if plain_ints:
+        ints = _PlainInts()
+        cd_e, RecordContinuationState, ResponseRequired = ints, ints.x, ints.x
+        DirT, TrS = ints.x, ints.x
+    else:
+        cd_e, DirT, TrS = cd, P.DirectiveType, P.TransactionStatus
     if k == "eof":
         fault = None if p.get("fault") is None else build_tlv({"t": "entity", "id": p["fault"]})
-        return P.EofPdu(conf, bytes.fromhex(p["checksum"]), p["size"], fault, cd.ConditionCode(p["cc"]))
+        return P.EofPdu(conf, bytes.fromhex(p["checksum"]), p["size"], fault, cd_e.ConditionCode(p["cc"]))
     if k == "finished":
         fault = None if p.get("fault") is None else build_tlv({"t": "entity", "id": p["fault"]})
         params = P.FinishedParams(
-            condition_code=cd.ConditionCode(p["cc"]), delivery_code=cd.DeliveryCode(p["delivery"]), file_status=cd.FileStatus(p["status"]),
+            condition_code=cd_e.ConditionCode(p["cc"]), delivery_code=cd_e.DeliveryCode(p["delivery"]), file_status=cd_e.FileStatus(p["status"]),
             file_store_responses=[build_tlv(r) for r in p.get("responses") or []], fault_location=fault,
         )
         return P.FinishedPdu(conf, params)
     if k == "ack":
-        return P.AckPdu(conf, P.DirectiveType(p["acked"]), cd.ConditionCode(p["cc"]), P.TransactionStatus(p["status"]))
+        return P.AckPdu(conf, DirT(p["acked"]), cd_e.ConditionCode(p["cc"]), TrS(p["status"]))
     if k == "metadata":
-        params = P.MetadataParams(bool(p["closure"]), cd.ChecksumType(p["cktype"]), p["size"], p["src_name"], p["dst_name"])
+        params = P.MetadataParams(bool(p["closure"]), cd_e.ChecksumType(p["cktype"]), p["size"], p["src_name"], p["dst_name"])
         opts = None if p.get("options") is None else [build_tlv(o) for o in p["options"]]
         return P.MetadataPdu(conf, params, opts)
     if k == "nak":
@@ -459,6 +481,13 @@ def other_pdu(p):
     return {"kind": "prompt", "conf": oc, "resp": 1}
 
 
+def P_bad(c):
+    """A Keep Alive PDU whose progress does not fit the 32-bit field of a small-file configuration (packing it must fail)."""
+    from spacepackets.cfdp import pdu as P
+
+    return P.KeepAlivePdu(build_conf(dict(c, large=0, crc=1)), 1 << 40)
+
+
 def pdu_histories(p, want: bytes, wo: dict, decode, tag="hist", decode_other=None):
     """The codec statement along short histories: the caller reuses buffers and configuration objects it owns, other PDUs are
     decoded in between - none of that may change what an existing PDU object reports or packs.  ``decode`` is the decoder
@@ -471,6 +500,19 @@ def pdu_histories(p, want: bytes, wo: dict, decode, tag="hist", decode_other=Non
     devs = []
     kind = p["kind"]
     c = p["conf"]
+    # equality does not depend on whether either side was ever packed; enumerated parameters may be given as plain integers
+    never_packed = build_pdu(p)
+    eq(devs, f"{tag}.eq_decoded_vs_never_packed", bool(decode(want) == never_packed) and bool(never_packed == decode(want)), True)
+    xi = build_pdu(p, plain_ints=True)
+    eq(devs, f"{tag}.plain_int_parameters.pack", bytes(xi.pack()), want)
+    eq(devs, f"{tag}.plain_int_parameters.eq_decoded", bool(decode(want) == xi), True)
+    # a pack of ANOTHER PDU was refused just before (a size that does not fit its 32-bit field): nothing of it may linger
+    try:
+        bad = P_bad(c)
+        bad.pack()
+    except Exception:  # noqa: BLE001 - the refusal itself is C06's over-width clause
+        pass
+    eq(devs, f"{tag}.pack_after_refused_pack_of_another_pdu", bytes(build_pdu(p).pack()), want)
     # caller goes on using the configuration object it passed in
     conf_obj = build_conf(c)
     x = build_pdu(p, conf_obj)
